@@ -99,6 +99,18 @@ func main() {
 			cfg.PromiseBatchSize, cfg.ScheduleBatchSize, cfg.TaskBatchSize = one(1, 2), one(1, 2), one(1, 2)
 			cfg.ApiSize = one(1, 5)
 		}
+		// like the repository's "lazy" DST mode, some runs have no time-out sweeper (and some no
+		// lease sweeper), so that the lazy paths and long-lived overdue rows are exercised
+		if !*converge {
+			switch r.Intn(5) {
+			case 0:
+				cfg.Background = []string{"SchedulePromises", "TimeoutLocks", "EnqueueTasks", "TimeoutTasks"}
+			case 1:
+				cfg.Background = []string{"TimeoutPromises", "SchedulePromises", "TimeoutLocks", "EnqueueTasks"}
+			case 2:
+				cfg.Background = []string{"SchedulePromises", "EnqueueTasks"}
+			}
+		}
 		prof := profile{
 			Weights: weights(*focus), PFailPre: *faults / 2, PFailPost: *faults / 2, PCrash: *crash,
 			PRouteErr: *routeerr, PSendOk: 0.6, PSendErr: 0.15, PDelay: []float64{0, 0.3, 0.6}[r.Intn(3)], MaxBatch: one(1, 3),
